@@ -20,6 +20,9 @@ pub struct Subject {
     pub real: Box<dyn Fn(&[u8]) -> Vec<u8> + Send + Sync>,
     /// what the specification prescribes after that sequence
     pub reference: Box<dyn Fn(&[u8]) -> Vec<u8> + Send + Sync>,
+    /// groups of actions that are alternative values of one enumerated option: once one of a group was invoked, the
+    /// others are not offered (whether a later value replaces or joins an earlier one is not fixed by the property)
+    pub exclusive: Vec<Vec<u8>>,
     /// byte offsets not judged (constants pinned to the baseline, and the checksum that depends on them)
     pub unjudged: Vec<usize>,
 }
@@ -33,6 +36,7 @@ fn subjects() -> Vec<Subject> {
     let mut v: Vec<Subject> = vec![];
     // SRAT memory affinity: enabled bit0, hot pluggable bit1, non-volatile bit2
     v.push(Subject {
+        exclusive: vec![],
         unjudged: vec![],
         name: "srat.MemoryAffinity",
         actions: vec!["enabled", "hotpluggable", "nonvolatile"],
@@ -55,6 +59,7 @@ fn subjects() -> Vec<Subject> {
     });
     for k in [numa::S_GI_ACPI, numa::S_GI_PCI] {
         v.push(Subject {
+        exclusive: vec![],
         unjudged: vec![],
             name: if k == numa::S_GI_ACPI { "srat.GenericInitiator(acpi)" } else { "srat.GenericInitiator(pci)" },
             actions: vec!["enabled", "architectural"],
@@ -73,6 +78,7 @@ fn subjects() -> Vec<Subject> {
         });
     }
     v.push(Subject {
+        exclusive: vec![],
         unjudged: vec![],
         name: "srat.RintcAffinity",
         actions: vec!["enabled", "proximity_domain(a)", "proximity_domain(b)"],
@@ -100,6 +106,7 @@ fn subjects() -> Vec<Subject> {
     });
     // PPTT processor node flags: physical 0, valid 1, thread 2, leaf 3, identical 4
     v.push(Subject {
+        exclusive: vec![],
         unjudged: vec![],
         name: "pptt.ProcessorNode",
         actions: vec!["physical", "valid", "thread", "leaf", "identical"],
@@ -124,6 +131,7 @@ fn subjects() -> Vec<Subject> {
             "policy(Writethrough)", "line_size", "id",
         ];
         v.push(Subject {
+        exclusive: vec![vec![4, 5, 6], vec![7, 8, 9], vec![10, 11]],
         unjudged: vec![],
             name: "pptt.CacheNodeBuilder",
             actions: acts,
@@ -171,6 +179,7 @@ fn subjects() -> Vec<Subject> {
     }
     // CEDT fixed memory window restrictions
     v.push(Subject {
+        exclusive: vec![],
         unjudged: vec![],
         name: "cedt.CxlFixedMemory",
         actions: vec!["cxl_type_2_memory", "cxl_type_3_memory", "volatile", "persistent", "fixed_configuration"],
@@ -207,6 +216,7 @@ fn subjects() -> Vec<Subject> {
         let ops2 = ops.clone();
         let c = Ctor::new(2, 0, 2);
         v.push(Subject {
+            exclusive: vec![],
             unjudged: vec![56, 57, 9],
             name: "tpm2.TpmServer1_2",
             actions: vec!["active_low", "edge_triggered", "sci_gpe(a)", "sci_gpe(b)", "gsi", "bus_is_pnp", "pci_sbdf", "config_addr", "log_area", "base_addr"],
@@ -227,6 +237,7 @@ fn subjects() -> Vec<Subject> {
     for st in 0..3usize {
         let fs = f.with(0, st as u64);
         v.push(Subject {
+        exclusive: vec![vec![0, 1], vec![2, 3]],
         unjudged: vec![],
             name: ["madt.Gicc(Disabled)", "madt.Gicc(Enabled)", "madt.Gicc(OnlineCapable)"][st],
             actions: vec!["performance_interrupt(edge)", "performance_interrupt(level)", "maintenance_interrupt(edge)", "maintenance_interrupt(level)"],
@@ -254,6 +265,7 @@ fn subjects() -> Vec<Subject> {
         });
     }
     v.push(Subject {
+        exclusive: vec![],
         unjudged: vec![],
         name: "madt.GicMsi",
         actions: vec!["spi_count_and_base(a)", "spi_count_and_base(b)", "gic_msi_frame_id", "base_addr"],
@@ -285,6 +297,7 @@ fn subjects() -> Vec<Subject> {
     for lt in 0..4usize {
         let fl = f.with(0, lt as u64);
         v.push(Subject {
+        exclusive: vec![],
         unjudged: vec![],
             name: ["hmat.SystemLocality(Memory)", "hmat.SystemLocality(L1)", "hmat.SystemLocality(L2)", "hmat.SystemLocality(L3)"][lt],
             actions: vec!["non_sequential_transfers", "minimum_transfer_size_required"],
@@ -354,7 +367,18 @@ fn closure(ctx: &'static Ctx, sub: Subject) -> (u64, u64) {
     let (s2, j2) = (sub.clone(), judge.clone());
     let m = FnModel::<Vec<u8>, Vec<u8>, u8> {
         init: vec![Node { key: init, aux: vec![], bad: !ok0 }],
-        actions: Arc::new(move |_s, out| out.extend(0..na)),
+        actions: Arc::new({
+            let sx = sub.clone();
+            move |s, out| {
+                for a in 0..na {
+                    // an alternative of an enumerated option already invoked with another value is not offered
+                    let blocked = sx.exclusive.iter().any(|g| g.contains(&a) && s.aux.iter().any(|h| g.contains(h) && *h != a));
+                    if !blocked {
+                        out.push(a);
+                    }
+                }
+            }
+        }),
         step: Arc::new(move |s, a| {
             let mut seq = s.aux.clone();
             seq.push(*a);
@@ -401,7 +425,15 @@ fn fadt_flag_closure(ctx: &'static Ctx, window: Vec<u16>, label: &str) -> (u64, 
     let tr = Arc::new(AtomicU64::new(0));
     let m = FnModel::<u32, (), u16> {
         init: vec![Node { key: 0, aux: (), bad: false }],
-        actions: Arc::new(move |_s, out| out.extend(w2.iter().cloned())),
+        actions: Arc::new(move |s, out| {
+            for a in w2.iter() {
+                // flags 23 and 24 are alternative values of the 2-bit persistent-CPU-caches field
+                let blocked = (*a == 23 && s.key & (1 << 23) != 0) || (*a == 24 && s.key & (1 << 22) != 0);
+                if !blocked {
+                    out.push(*a);
+                }
+            }
+        }),
         step: Arc::new(move |s, a| {
             // canonical history: one flag() call per bit already set (ascending), then the action
             let mut ops: Vec<Op> = vec![];
@@ -451,7 +483,7 @@ fn fadt_mode_closure(ctx: &'static Ctx) -> (u64, u64) {
         acts.push(Op::new(k, 0, 2));
         acts.push(Op::new(k, 0, 3));
     }
-    for i in [0u16, 4, 12, 20, 23, 24] {
+    for i in [0u16, 4, 12, 20, 21, 23] {
         acts.push(Op::new(fixed::F_FLAG, i, 2));
     }
     let a2 = acts.clone();
@@ -563,7 +595,7 @@ pub fn run(ctx: &'static Ctx) {
         }
         // all sequences of length <= 2 over the full 25-flag alphabet
         let c = Ctor::new(2, 0, 2);
-        let pairs: Vec<(u16, u16)> = (0..25u16).flat_map(|a| (0..25u16).map(move |b| (a, b))).collect();
+        let pairs: Vec<(u16, u16)> = (0..25u16).flat_map(|a| (0..25u16).map(move |b| (a, b))).filter(|(a, b)| !((*a == 23 && *b == 24) || (*a == 24 && *b == 23))).collect();
         let n = AtomicU64::new(0);
         pairs.par_iter().for_each(|(a, b)| {
             let ops = vec![Op::new(fixed::F_FLAG, *a, 2), Op::new(fixed::F_FLAG, *b, 2)];
@@ -580,7 +612,7 @@ pub fn run(ctx: &'static Ctx) {
         let (u, t) = fadt_flag_closure(ctx, (0u16..25).collect(), "all-25");
         ctx.st(u);
         ctx.tr(t);
-        fa.push(json!({"flags": "all 25", "unique_states": u, "transitions": t, "expected_states": 1u64 << 24}));
+        fa.push(json!({"flags": "all 25", "unique_states": u, "transitions": t, "expected_states": 3u64 << 22}));
     }
     let (u, t) = fadt_mode_closure(ctx);
     ctx.st(u);
@@ -592,5 +624,5 @@ pub fn run(ctx: &'static Ctx) {
     ctx.set("bound", json!("closures: every reachable option state of every listed structure, all orders and repetitions"));
 }
 
-pub const RULE: &str = "one stateright closure per option-bearing structure (all subsets, orders, repetitions reach a fixed point because options are idempotent), every transition executed on the real builder and compared with the whole-structure reference; all constructor boolean tuples; FADT: flag closure (quick: three 9-flag windows + all pairs; thorough: all 25 flags = 2^24 states) and mode closure. distinct = distinct structure images";
+pub const RULE: &str = "one stateright closure per option-bearing structure (all subsets, orders, repetitions reach a fixed point because options are idempotent), every transition executed on the real builder and compared with the whole-structure reference; all constructor boolean tuples; FADT: flag closure (quick: three 9-flag windows + all pairs; thorough: all 25 flags = 3*2^22 states (the two values of the 2-bit persistent-caches field are alternatives)) and mode closure. distinct = distinct structure images";
 pub const ASSUME: &[&str] = &["repeated enum-valued setters OR together (the property's semantics is 'union')", "argument values are one or two per valued option"];
